@@ -87,7 +87,7 @@ func TestVerifC13_API(t *testing.T) {
 				}
 			}
 		}
-		conflict, storedInBatch, storedLast, storedEarlier, rejected := false, false, false, false, false
+		conflict, storedInBatch, storedLast, storedEarlier, rejected, bigBatch, bigConflict := false, false, false, false, false, false, false
 		paths := map[string]bool{}
 		n := rapid.IntRange(1, vkit.Scale(14, 22)).Draw(t, "steps")
 		for i := 0; i < n; i++ {
@@ -118,11 +118,19 @@ func TestVerifC13_API(t *testing.T) {
 					c.fail("%s returned %v, want %v", q, got, want)
 				}
 			case "Import", "ImportClear":
-				k := rapid.IntRange(1, 6).Draw(t, l+".n")
+				// mostly small batches; some with 13-60 entries for ONE shard (sort.Sort is only stable up to 12 elements),
+				// over few columns, so that a column is repeated non-adjacently with conflicting rows
+				k := rapid.OneOf(rapid.IntRange(1, 6), rapid.IntRange(1, 6), rapid.IntRange(13, 60)).Draw(t, l+".n")
 				ncols := rapid.IntRange(1, 3).Draw(t, l+".ncols")
+				from := vc13Cols
+				if k > 12 {
+					bigBatch = true
+					from = rapid.SampledFrom([][]uint64{{0, 1, 65536, vgaSW - 1}, {0, 1, 65536, vgaSW - 1}, {vgaSW, vgaSW + 1}}).Draw(t, l+".shardCols")
+					ncols = rapid.IntRange(2, len(from)).Draw(t, l+".ncolsBig")
+				}
 				var pool []uint64
 				for j := 0; j < ncols; j++ {
-					pool = append(pool, rapid.SampledFrom(vc13Cols).Draw(t, fmt.Sprintf("%s.pc%d", l, j)))
+					pool = append(pool, rapid.SampledFrom(from).Draw(t, fmt.Sprintf("%s.pc%d", l, j)))
 				}
 				var rs, cs []uint64
 				for j := 0; j < k; j++ {
@@ -145,6 +153,9 @@ func TestVerifC13_API(t *testing.T) {
 							continue
 						}
 						conflict = true
+						if k > 12 {
+							bigConflict = true
+						}
 						if old, had := model[col]; had && distinct[old] {
 							storedInBatch = true
 							if rr[len(rr)-1] == old {
@@ -194,11 +205,11 @@ func TestVerifC13_API(t *testing.T) {
 		kc := vkit.NewCase().Key("c13api", kind, c.hist)
 		defer kc.Done()
 		kc.Class("kind:"+kind).ClassIf(conflict, "batchRepeatsColumnWithDifferentRows").ClassIf(storedInBatch, "storedValueAppearsInConflictingBatch")
-		kc.ClassIf(storedLast, "storedValueIsLastEntry").ClassIf(storedEarlier, "storedValueIsEarlierEntry").ClassIf(rejected, "boolRowAbove1Rejected")
+		kc.ClassIf(storedLast, "storedValueIsLastEntry").ClassIf(storedEarlier, "storedValueIsEarlierEntry").ClassIf(rejected, "boolRowAbove1Rejected").ClassIf(bigBatch, "batchOf13to60EntriesForOneShard").ClassIf(bigConflict, "bigBatchRepeatsColumnWithDifferentRows")
 		for p := range paths {
 			kc.Class("path:" + p)
 		}
-		kc.NT(storedInBatch)
+		kc.NT(storedInBatch || bigConflict)
 		kc.Sample(map[string]interface{}{"kind": kind, "history": c.hist})
 	})
 }
